@@ -605,6 +605,34 @@ pub fn creates(cfg: &Cfg, m: &Menu, k: usize) -> Vec<Act> {
     dedupe(v)
 }
 
+/// C09: create-bid requests whose fee field deviates from the fee due (absent, off by one, other
+/// denomination, explicit zero), for every price and size of the menu
+pub fn fee_creates(cfg: &Cfg, m: &Menu) -> Vec<Act> {
+    let r = &cfg.roles;
+    let mut v = vec![];
+    for slot in 0..m.bid_slots {
+        for p in &m.prices {
+            for s in &m.sizes {
+                for fee in [FeeMode::Exact, FeeMode::Absent, FeeMode::Plus1, FeeMode::Minus1, FeeMode::WrongDenom, FeeMode::ExplicitValue] {
+                    let d = BidDraft {
+                        sender: r.get(if slot == 0 { "buyer1" } else { "buyer2" }).to_string(),
+                        id: BID_IDS[slot].into(),
+                        base: cfg.base.clone(),
+                        quote: cfg.quotes[0].clone(),
+                        price: p.to_string(),
+                        size: *s,
+                        qs: QsMode::Exact,
+                        fee,
+                        funds: FundsMode::Exact,
+                    };
+                    v.push(d.build(cfg));
+                }
+            }
+        }
+    }
+    dedupe(v)
+}
+
 // ---------------------------------------------------------------------------------------------
 // C12: configuration-change alphabet
 
